@@ -727,6 +727,8 @@ func replayCrash(bin, id, path, wantSig string) (bool, string) {
 	return false, "<no crash>"
 }
 
+var lastReplayMsg string
+
 func replayOnce(bin, id, path string) (bool, string) {
 	out := path + fmt.Sprintf(".%d.out", os.Getpid())
 	defer os.Remove(out)
@@ -747,10 +749,12 @@ func replayOnce(bin, id, path string) (bool, string) {
 	json.Unmarshal(rb, &want)
 	for _, v := range r.Violations {
 		if v.Sig == want.Sig {
+			lastReplayMsg = v.Msg
 			return true, v.Sig
 		}
 	}
 	if len(r.Violations) > 0 {
+		lastReplayMsg = r.Violations[0].Msg
 		return true, r.Violations[0].Sig
 	}
 	return false, "<none>"
@@ -778,7 +782,7 @@ func replay(path string) int {
 	}
 	ok, sig := replayOnce(bin, rp.Property, path)
 	if ok {
-		fmt.Printf("VIOLATION property=%s replay=%s\n  reproduced sig=%s\n", rp.Property, path, sig)
+		fmt.Printf("VIOLATION property=%s replay=%s\n  reproduced sig=%s\n  %s\n", rp.Property, path, sig, lastReplayMsg)
 		return 1
 	}
 	fmt.Printf("replay of %s: no violation (recorded sig %s)\n", path, rp.Sig)
